@@ -658,7 +658,7 @@ func (c06) Run(t *testing.T, scenario any, job *Job, res *Result) {
 		Ref: func(w *refproto.Wire) error {
 			swapped := map[string]bool{}
 			pr, _ = refproto.Pull(w, refproto.PullOpts{Daemon: true, Module: sc.Module, Args: args, List: lo, ServerIsSender: true, MaxData: 16 << 20,
-				PlanAll: true, // a hostile receiver also asks for the "content" of symlinks, directories, devices
+				PlanExtra: 1 + int(sc.Tr.SchedSeed%1009), // a hostile receiver also asks for the "content" of one symlink, directory or device
 				Plan: func(idx int, e *refproto.Entry, seed int32) (bool, []byte, int, int) {
 					if sc.Swap && (sc.Module == "mod" || sc.Module == "modfs") {
 						// the list is in; swap the file for a symlink out of the module now
